@@ -78,6 +78,23 @@ def main():
 
     c = engine.run_once("bfs", toy_bfs, (), "quick", 0)
     expect(not c.violations and c.transitions == 12, f"BFS closes a 6-state graph with 12 transitions ({c.transitions})")
+    # hidden library state between executions: must be reported as a history-dependent VIOLATION with a replayable,
+    # minimised sequence - not as harness nondeterminism
+    import glob
+    import json
+    import subprocess
+
+    for f in glob.glob(os.path.join(VERIF, "replays", "T00-*.json")):
+        os.remove(f)
+    p = subprocess.run([os.path.join(VERIF, "check"), "T00", "--workers", "2"], capture_output=True, text=True, timeout=600)
+    expect(p.returncode == 1 and "HISTORY-DEPENDENT" in p.stdout and "HARNESS-NONDETERMINISM" not in p.stdout,
+           "hidden state between executions is reported as a history-dependent VIOLATION")
+    reps = glob.glob(os.path.join(VERIF, "replays", "T00-*.json"))
+    seq = json.load(open(reps[0])).get("sequence") if reps else None
+    expect(seq == [[3, 0, 0], [4, 0, 0]], f"its replay holds the minimised two-execution sequence ({seq})")
+    if reps:
+        p = subprocess.run([os.path.join(VERIF, "check"), "T00", "--replay", reps[0]], capture_output=True, text=True, timeout=600)
+        expect(p.returncode == 1 and "VIOLATION property=T00" in p.stdout, "the sequence replay reproduces it in a fresh process")
     expect(compileall.compile_dir(os.path.join(VERIF, "mc"), quiet=1, force=False), "mc compiles")
     expect(compileall.compile_dir(os.path.join(VERIF, "checks"), quiet=1, force=False), "checks compile")
     print("selftest", "passed" if ok else "FAILED")
